@@ -547,6 +547,36 @@ def r20g(model: Model, rr: RuleResult):
                 counter = k
     if counter:
         rr.ok(f"slot registry: `{counter}` is advanced until ({counter}, name) is free or already owned by this source, then claimed: one slot per distinct source")
+    # the registry outlives the call: it is an attribute of the per-stage scope object (bound there before or while it is read), not a fresh dict
+    scope = fi.params[0] if fi.params else "scope_fn"
+    reg_names = set()
+    for n_ in ast.walk(fi.node):
+        if isinstance(n_, ast.Call) and callee_tail(n_) in ("get", "setdefault") and isinstance(n_.func, ast.Attribute) and isinstance(n_.func.value, ast.Name) \
+                and n_.args and isinstance(n_.args[0], ast.Tuple):
+            reg_names.add(n_.func.value.id)
+        if isinstance(n_, ast.Subscript) and isinstance(n_.value, ast.Name) and isinstance(n_.slice, ast.Tuple):
+            reg_names.add(n_.value.id)
+    persisted = None
+    for rn_ in sorted(reg_names):
+        for d in cfg.all_defs(rn_):
+            v = d.value
+            if v is None:
+                continue
+            stored = any(isinstance(t_, ast.Attribute) and norm(t_.value) == scope for st_ in walk_body(fi) if isinstance(st_, ast.Assign) for t_ in st_.targets) or \
+                any(isinstance(c_, ast.Call) and callee_tail(c_) in ("setattr",) and c_.args and norm(c_.args[0]) == scope for c_ in calls_in(fi)) or \
+                any(isinstance(c_, ast.Call) and callee_tail(c_) == "setdefault" and f"{scope}.__dict__" in norm(c_.func) for c_ in calls_in(fi))
+            if isinstance(v, ast.Call) and norm(v.func) == "getattr" and len(v.args) == 3 and norm(v.args[0]) == scope and isinstance(v.args[2], (ast.Dict, ast.Call)) and not stored:
+                rr.bad(fi, d.stmt or fi.node, f"the slot registry `{rn_}` is `{short(v)}`: when the scope object has no registry yet a fresh dict is used and never stored back, so "
+                       f"every call starts from an empty registry and same-named sources (every master of a variable font, same-named files of several configurations) "
+                       f"all get slot 0 and share one intermediate", construct=f"_dest_for_src: registry {rn_} not persisted on {scope}")
+                persisted = False
+            elif isinstance(v, (ast.Dict,)) and not stored:
+                rr.bad(fi, d.stmt or fi.node, f"the slot registry `{rn_}` is a fresh dict on every call", construct=f"_dest_for_src: registry {rn_} not persisted on {scope}")
+                persisted = False
+            elif persisted is None and (stored or (isinstance(v, ast.Attribute) and norm(v.value) == scope)):
+                persisted = True
+    if persisted:
+        rr.ok(f"the slot registry lives on the scope object `{scope}` (it is shared by all calls for one stage)")
     ext = [st for st in walk_body(fi) if isinstance(st, ast.Assign) and len(st.targets) == 1 and norm(st.targets[0]) == "out_dir"
            and isinstance(st.value, ast.BinOp) and isinstance(st.value.op, ast.Div)]
     if not ext:
@@ -603,6 +633,28 @@ def r20h(model: Model, rr: RuleResult):
             rr.bad(fi, cs[0], f"ufo2ft.{name} is not selected by `config.output_format == {ext!r}` ({[short(e, 50) for e, _ in facts]}): with `--color_format glyf_colr_1 "
                    f"--output_file Foo.otf` (or cff_colr_0 with a .ttf name) the file gets the other outline flavour than its name and the option promise",
                    construct=f"_make_ttfont: {name} guard")
+    # the CFF flavour of an .otf follows the colour format: version 2 exactly for cff2_*, version 1 for everything else
+    otf = [c for c in calls_in(fi) if callee_tail(c) == "compileOTF"]
+    cv = kwarg(otf[0], "cffVersion") if otf else None
+    if cv is not None:
+        from ..dataflow import alternatives
+        from ..guards import canon_fact
+        cases = []
+        if isinstance(cv, ast.Name):
+            for val, conds in alternatives(cfg, cfg.node_for(otf[0]), cv.id, fi):
+                cases.append((val, [c_ for c_ in conds if "color_format" in c_[0]]))
+        elif isinstance(cv, ast.IfExp):
+            cases = [(norm(cv.body), [canon_fact(cv.test, True)]), (norm(cv.orelse), [canon_fact(cv.test, False)])]
+        T2 = ("config.color_format.startswith('cff2_')", True)
+        ok_cff = bool(cases) and all((v == "2" and T2 in c_) or (v == "1" and (T2[0], False) in c_) or (v == "1" and not c_) for v, c_ in cases) and any(v == "2" for v, _ in cases)
+        wrong = [(v, c_) for v, c_ in cases if v in ("1", "2") and c_ and any("startswith" in t_ and t_ != T2[0] for t_, _ in c_)]
+        if ok_cff:
+            rr.ok("cffVersion is 2 exactly for cff2_* colour formats, 1 otherwise")
+        elif wrong:
+            rr.bad(fi, otf[0], f"cffVersion is chosen by {wrong[0][1]} (value {wrong[0][0]}): a colour format that is neither cff_ nor cff2_ (glyf_colr_1, picosvg, ... with an .otf "
+                   f"output name) gets the other CFF flavour than before", construct="_make_ttfont: cffVersion selection")
+        else:
+            rr.bad_shape(fi, otf[0], "cffVersion is not selected by color_format.startswith('cff2_')", construct="_make_ttfont: cffVersion selection")
     ofmt = model.mod("config").cls("FontConfig").node
     prop = [n for n in ofmt.body if isinstance(n, ast.FunctionDef) and n.name == "output_format"]
     if prop and "Path(self.output_file).suffix" in " ".join(norm(x) for x in prop[0].body):
